@@ -53,7 +53,8 @@ OP_BUDGET = 0.9
 # reference model
 # --------------------------------------------------------------------------------------
 class Model:
-    def __init__(self, nmsgs: int, consumers):
+    def __init__(self, nmsgs: int, consumers, kind="mem"):
+        self.kind = kind
         self.nmsgs = nmsgs
         self.t = 0  # windows elapsed
         # id -> dict(place, due (abs s or None), holder, src, payload, tried, noparams)
@@ -62,13 +63,13 @@ class Model:
         self.consumers = consumers
 
     # places: waiting | delayed | held (by app, via consumer `holder`) | dead | acked
-    def deliverable(self, mid, cname, now, must=False) -> bool:
+    def deliverable(self, mid, cname, now, must=False, any_topic=False) -> bool:
         """may (default): could consumer `cname` legitimately receive `mid` around time `now`?
         must: is the broker obliged to hand it to `cname` if asked at `now`?
         (Early delivery of delayed messages is C05's subject; here one second of slack.)"""
         x = self.m[mid]
         cat, topics = CONSUMERS[cname]
-        if topics is not None and MSGS[mid] not in topics:
+        if topics is not None and MSGS[mid] not in topics and not any_topic:
             return False
         if cat == "NORMAL":
             if x["place"] == "waiting":
@@ -142,7 +143,10 @@ def _place_ok(model: Model, mid: str, entries: list, now: float, holders: dict) 
         hs = holders.get(mid, [])
         if len(hs) > 1:
             return f"is prefetched by several consumers {hs}"
-        ok = any(model.c[c]["started"] and model.deliverable(mid, c, now) for c in model.consumers)
+        # RabbitMQ filters topics on the client: a started consumer also holds foreign messages for
+        # the moment it needs to reject them
+        ok = any(model.c[c]["started"] and model.deliverable(mid, c, now, any_topic=model.kind == "amqp")
+                 for c in model.consumers)
         return None if ok else f"is marked in flight though no started consumer may hold it (model: {x['place']})"
     if x["place"] == "waiting":
         return None if p == "waiting" else f"should be waiting but is in {p}"
@@ -172,7 +176,7 @@ class Runner:
         self.kind = kind
         self.x = Exec(kind)
         self.w = self.x.world
-        self.model = Model(nmsgs, consumers)
+        self.model = Model(nmsgs, consumers, kind)
         self.cons = {}
         self.viol: list = []
         self.base_ns = None
